@@ -107,6 +107,7 @@ type Op struct {
 	Parent  int      `json:"parent,omitempty"`
 	Mw      string   `json:"mw,omitempty"`
 	MwArgs  []string `json:"mw_args,omitempty"`
+	Opaque  string   `json:"opaque,omitempty"` // why the source of a pass-through wrapper is not accepted as one
 	Prefix  bool     `json:"prefix,omitempty"`
 	Tpl     string   `json:"tpl"`
 	Methods []string `json:"methods,omitempty"`
@@ -139,6 +140,31 @@ type World struct {
 	ncall   int
 	visited map[string]bool // positions of registration call sites that were interpreted
 	notes   []string
+	served      map[string]bool    // positions of serving calls that were interpreted (a serve / serveother operation exists)
+	newSites    map[string]bool    // positions of mux.NewRouter() calls that were interpreted
+	dead        []deadRange        // statement ranges the walker skipped because their condition is statically false
+	passCache   map[string]string  // middleware function -> "" (pass-through) or the reason it is not
+	sites       []CensusSite
+	defaultMux  []string           // patterns registered on http.DefaultServeMux (http.Handle*, pprof, expvar)
+	defaultMuxServed []string      // positions of calls that serve http.DefaultServeMux
+}
+
+type deadRange struct {
+	file   string
+	a, b   int
+}
+
+func (w *World) markDead(a, b token.Pos) {
+	pa, pb := w.fset.Position(a), w.fset.Position(b)
+	w.dead = append(w.dead, deadRange{pa.Filename, pa.Line, pb.Line})
+}
+
+type CensusSite struct {
+	Kind    string `json:"kind"`
+	Pos     string `json:"pos"`
+	Src     string `json:"src,omitempty"`
+	Why     string `json:"explained_by,omitempty"` // why the site cannot expose a handler outside the tracked router
+	Flagged bool   `json:"flagged"`                // true: an OUnknown / OServeOther operation was emitted for it
 }
 
 func (w *World) rel(p token.Pos) string {
@@ -404,6 +430,9 @@ func (w *World) emit(fr *frame, c *Cond, op Op, pos token.Pos) {
 	op.Cond = c
 	op.Pos = w.rel(pos)
 	op.Stack = append([]Frame(nil), fr.stack...)
+	if op.Op == "newrouter" {
+		w.newSites[op.Pos] = true
+	}
 	w.ops = append(w.ops, op)
 }
 
@@ -547,7 +576,11 @@ func (w *World) routerChain(fr *frame, c *Cond, r int, ls []link, whole ast.Expr
 	case "Use":
 		for _, a := range ls[0].args {
 			name, args := w.mwName(fr, a)
-			w.emit(fr, c, Op{Op: "use", Router: r, Mw: name, MwArgs: args}, pos)
+			op := Op{Op: "use", Router: r, Mw: name, MwArgs: args}
+			if fn, ok := passThroughFuncs[name]; ok {
+				op.Opaque = w.passThrough(fn)
+			}
+			w.emit(fr, c, op, pos)
 		}
 		return 0, false
 	case "HandleFunc", "Handle", "Path", "PathPrefix", "NewRoute", "Methods", "Name":
@@ -728,6 +761,33 @@ func (w *World) handleCall(fr *frame, c *Cond, call *ast.CallExpr, depth int) (i
 	if r, ok := w.routerOf(fr, base); ok && len(ls) > 0 {
 		return w.routerChain(fr, c, r, ls, call)
 	}
+	// srv.ListenAndServe() / srv.Serve(l) ... on an http.Server value whose Handler the translator read
+	if len(ls) == 1 && (ls[0].name == "ListenAndServe" || ls[0].name == "ListenAndServeTLS" || ls[0].name == "Serve" || ls[0].name == "ServeTLS") {
+		var sv *val
+		if id, ok := base.(*ast.Ident); ok {
+			if v, ok := fr.vars[id.Name]; ok && v.kind == "server" {
+				sv = &v
+			}
+		} else if v, ok := w.serverLit(fr, base); ok {
+			sv = &v
+		}
+		if sv != nil {
+			w.served[w.rel(ls[0].pos)] = true
+			if sv.router >= 0 {
+				w.emit(fr, c, Op{Op: "serve", Router: sv.router, What: "(http.Server)." + ls[0].name}, call.Pos())
+			} else {
+				w.emit(fr, c, Op{Op: "serveother", What: "(http.Server)." + ls[0].name + " serves " + sv.src}, call.Pos())
+			}
+			return 0, false
+		}
+	}
+	for _, a := range call.Args {
+		if id, ok := a.(*ast.Ident); ok {
+			if v, ok := fr.vars[id.Name]; ok && v.kind == "server" {
+				w.emit(fr, c, Op{Op: "serveother", What: "http.Server value " + id.Name + " passed to " + w.src(call.Fun)}, call.Pos())
+			}
+		}
+	}
 	if w.isMuxNewRouter(fr, base) && len(ls) > 0 {
 		// mux.NewRouter().PathPrefix(..)... : a fresh router used inline
 		id := w.nrouter
@@ -748,6 +808,7 @@ func (w *World) handleCall(fr *frame, c *Cond, call *ast.CallExpr, depth int) (i
 			if _, isVar := fr.vars[id.Name]; !isVar {
 				if hi, ok := serveFuncs[s.Sel.Name]; ok && hi < len(call.Args) {
 					w.visited[w.rel(s.Sel.Pos())] = true
+					w.served[w.rel(s.Sel.Pos())] = true
 					if r, ok := w.routerOf(fr, call.Args[hi]); ok {
 						w.emit(fr, c, Op{Op: "serve", Router: r, What: "http." + s.Sel.Name}, call.Pos())
 					} else {
@@ -907,6 +968,15 @@ func (w *World) bindAssign(fr *frame, c *Cond, lhs []ast.Expr, rhs []ast.Expr, d
 				}
 			}
 		}
+		// &http.Server{Handler: router, ...}
+		if v, ok := w.serverLit(fr, r); ok {
+			if name != "" && name != "_" {
+				fr.vars[name] = v
+			} else {
+				w.emit(fr, c, Op{Op: "serveother", What: "http.Server stored in " + w.src(lhs[i])}, r.Pos())
+			}
+			continue
+		}
 		// &pkg.T{} / pkg.T{} / new(pkg.T): remember the type for method resolution
 		if name != "" {
 			if tp, tn, ok := w.litType(fr, r); ok {
@@ -938,6 +1008,45 @@ func returnsRouter(d *ast.FuncDecl) bool {
 		}
 	}
 	return false
+}
+
+// &http.Server{... Handler: h ...}: router = the tracked router that is the Handler, or -1 (nil / absent = DefaultServeMux / other)
+func (w *World) serverLit(fr *frame, e ast.Expr) (val, bool) {
+	if pe, ok := e.(*ast.ParenExpr); ok {
+		e = pe.X
+	}
+	if u, ok := e.(*ast.UnaryExpr); ok && u.Op == token.AND {
+		e = u.X
+	}
+	cl, ok := e.(*ast.CompositeLit)
+	if !ok {
+		return val{}, false
+	}
+	s, ok := cl.Type.(*ast.SelectorExpr)
+	if !ok || s.Sel.Name != "Server" {
+		return val{}, false
+	}
+	id, ok := s.X.(*ast.Ident)
+	if !ok || fr.imps[id.Name] != "net/http" {
+		return val{}, false
+	}
+	v := val{kind: "server", router: -1, src: "http.DefaultServeMux (no Handler field)"}
+	for _, el := range cl.Elts {
+		kv, ok := el.(*ast.KeyValueExpr)
+		if !ok {
+			v.src = "an http.Server literal without field names"
+			continue
+		}
+		if k, ok := kv.Key.(*ast.Ident); ok && k.Name == "Handler" {
+			if r, ok := w.routerOf(fr, kv.Value); ok {
+				v.router = r
+			} else {
+				v.src = w.src(kv.Value)
+			}
+		}
+	}
+	w.served[w.rel(cl.Pos())] = true
+	return v, true
 }
 
 func (w *World) litType(fr *frame, e ast.Expr) (string, string, bool) {
@@ -1040,9 +1149,15 @@ func (w *World) stmts(fr *frame, c *Cond, list []ast.Stmt, depth int) *Cond {
 				break
 			}
 			cc := w.condLazy(fr, t)
+			if cAnd(live, cc).K == "false" {
+				w.markDead(t.Body.Pos(), t.Body.End())
+			}
 			r1 := w.stmts(fr, cAnd(live, cc), t.Body.List, depth)
 			r2 := cFalse
 			if t.Else != nil {
+				if cAnd(live, cNot(cc)).K == "false" {
+					w.markDead(t.Else.Pos(), t.Else.End())
+				}
 				r2 = w.stmts(fr, cAnd(live, cNot(cc)), []ast.Stmt{t.Else}, depth)
 			}
 			r := cOr(r1, r2)
@@ -1246,7 +1361,8 @@ func main() {
 		os.Exit(2)
 	}
 	repo, _ := filepath.Abs(os.Args[1])
-	w := &World{repo: repo, fset: token.NewFileSet(), pkgs: map[string]*Pkg{}, atomIdx: map[string]int{}, visited: map[string]bool{}}
+	w := &World{repo: repo, fset: token.NewFileSet(), pkgs: map[string]*Pkg{}, atomIdx: map[string]int{}, visited: map[string]bool{},
+		served: map[string]bool{}, newSites: map[string]bool{}, passCache: map[string]string{}}
 	gm, err := os.ReadFile(filepath.Join(repo, "go.mod"))
 	if err != nil {
 		fmt.Fprintln(os.Stderr, err)
@@ -1267,6 +1383,7 @@ func main() {
 	fr.stack = []Frame{{Fn: "main.main", Call: 0}}
 	w.stmts(fr, cTrue, d.Body.List, 0)
 	w.census()
+	w.serverCensus()
 
 	var must []int
 	for _, a := range w.atoms {
@@ -1292,7 +1409,44 @@ func main() {
 		ms = append(ms, strconv.Itoa(m))
 	}
 	fmt.Fprintf(&b, "Definition gen_must : list nat := [%s].\n", strings.Join(ms, "; "))
-	fmt.Fprintf(&b, "Definition gen_credentials_atoms : bool := %v.  (* both a login and a password condition occur in the assembly *)\n\n", hasKinds(w.atoms))
+	fmt.Fprintf(&b, "Definition gen_credentials_atoms : bool := %v.  (* both a login and a password condition occur in the assembly *)\n", hasKinds(w.atoms))
+	la, pa := -1, -1
+	for _, a := range w.atoms {
+		if a.Kind == "login_set" {
+			la = a.ID
+		}
+		if a.Kind == "pass_set" {
+			pa = a.ID
+		}
+	}
+	fmt.Fprintf(&b, "Definition gen_login_atom : nat := %d.\nDefinition gen_pass_atom : nat := %d.\n", max0(la), max0(pa))
+	// the valuation of: login set, password EMPTY, Mode "all", CORS off, every other atom false
+	var ow []string
+	var owb []bool
+	for _, a := range w.atoms {
+		v := a.Kind == "login_set" || a.Kind == "mode_eq:all"
+		ow = append(ow, fmt.Sprint(v))
+		owb = append(owb, v)
+	}
+	fmt.Fprintf(&b, "(* the configuration: login set, password empty, Mode \"all\", CORS off (every other atom false) *)\nDefinition gen_open_witness : list bool := [%s].\n", strings.Join(ow, "; "))
+	openWitness = owb
+	b.WriteString("(* census of every site in the repository that can open a listener or attach a handler outside the tracked router:\n   kind, number of sites, number of sites that are NOT explained by the assembly (each of those is an OUnknown / OServeOther below) *)\n")
+	b.WriteString("Definition gen_census : list (string * (nat * nat)) := [\n")
+	cc := w.censusCounts()
+	var kinds []string
+	for k := range cc {
+		kinds = append(kinds, k)
+	}
+	sort.Strings(kinds)
+	for i, k := range kinds {
+		sep := ";"
+		if i == len(kinds)-1 {
+			sep = ""
+		}
+		fmt.Fprintf(&b, "  (%s, (%d, %d))%s\n", coqStr(k), cc[k][0], cc[k][1], sep)
+	}
+	b.WriteString("].\n(* some call serves http.DefaultServeMux (a nil handler): whatever pprof / expvar / http.Handle registered there is exposed *)\n")
+	fmt.Fprintf(&b, "Definition gen_default_mux_served : bool := %v.\n\n", len(w.defaultMuxServed) > 0)
 	b.WriteString("Definition gen_assembly : list gop := [\n")
 	for i, o := range w.ops {
 		var s string
@@ -1303,6 +1457,10 @@ func main() {
 			s = fmt.Sprintf("OSubrouter %d %d %s", o.Router, o.Parent, coqStr(o.Tpl))
 		case "use":
 			mw := o.Mw
+			if o.Opaque != "" {
+				// the source of the wrapper is not (recognisably) pass-through: not the middleware the model calls transparent
+				mw = mw + ": not a pass-through wrapper: " + o.Opaque
+			}
 			if mw == "BasicAuth" && !(len(o.MwArgs) == 2 && strings.HasSuffix(o.MwArgs[0], "AUTH_SETTINGS.BASIC.Username") &&
 				strings.HasSuffix(o.MwArgs[1], "AUTH_SETTINGS.BASIC.Password")) {
 				// not the configured (login, password) pair, in that order: not the middleware the model describes
@@ -1334,12 +1492,33 @@ func main() {
 		fmt.Fprintln(os.Stderr, err)
 		os.Exit(2)
 	}
-	out := map[string]interface{}{"repo": repo, "module": w.module, "atoms": w.atoms, "must": must, "ops": w.ops, "notes": w.notes, "nrouter": w.nrouter}
+	if w.defaultMux == nil {
+		w.defaultMux = []string{}
+	}
+	if w.defaultMuxServed == nil {
+		w.defaultMuxServed = []string{}
+	}
+	counts := map[string]map[string]int{}
+	for k, v := range w.censusCounts() {
+		counts[k] = map[string]int{"sites": v[0], "flagged": v[1]}
+	}
+	out := map[string]interface{}{"repo": repo, "module": w.module, "atoms": w.atoms, "must": must, "ops": w.ops, "notes": w.notes, "nrouter": w.nrouter,
+		"census": w.sites, "census_counts": counts, "default_mux_patterns": w.defaultMux, "default_mux_served": w.defaultMuxServed,
+		"pass_through_source": w.passCache, "open_witness": openWitness}
 	js, _ := json.MarshalIndent(out, "", " ")
 	if err := os.WriteFile(os.Args[3], js, 0644); err != nil {
 		fmt.Fprintln(os.Stderr, err)
 		os.Exit(2)
 	}
+}
+
+var openWitness []bool
+
+func max0(i int) int {
+	if i < 0 {
+		return 0
+	}
+	return i
 }
 
 func hasKinds(as []Atom) bool {
